@@ -202,8 +202,9 @@ sys.path.insert(0, %(verif)r)
 from vlib import build
 from excel2pycl import Parser, Cell
 d = tempfile.mkdtemp(prefix='c09_', dir=%(work)r)
-A = [('Jan', {'A1': 5, 'A2': 7, 'B1': '=A1+A2', 'C1': '=SUM(A1:A2)'}), ('Feb', {'A1': 1, 'B1': '=Jan!A1*2'})]
-B = [('Feb', {'A1': 100, 'B1': '=Jan!A1*2'}), ('Jan', {'A1': 50, 'A2': 70, 'B1': '=A1+A2', 'C1': '=SUM(A1:A2)'})]
+# same layout and formula texts, different constants, and a referenced sheet at a different position
+A = [('Main', {'A1': 5, 'A2': 7, 'B1': '=A1+A2', 'C1': '=SUM(A1:A2)', 'D1': '=Other!A1*2', 'E1': '=IF(A1>3,A2,0)'}), ('Other', {'A1': 1}), ('Pad', {'A1': 9})]
+B = [('Main', {'A1': 50, 'A2': 70, 'B1': '=A1+A2', 'C1': '=SUM(A1:A2)', 'D1': '=Other!A1*2', 'E1': '=IF(A1>3,A2,0)'}), ('Pad', {'A1': 90}), ('Other', {'A1': 10})]
 def norm(sheets):
     return [(t, build.a1(c)) for t, c in sheets]
 pa = build.write_xlsx(os.path.join(d, 'a.xlsx'), norm(A))
@@ -212,13 +213,13 @@ mode = sys.argv[1]
 out = {}
 if mode == 'fresh':
     out['b'] = Parser().disable_safety_check().set_excel_file_path(pb).get_translation()
-    out['b_entry'] = Parser().disable_safety_check().set_excel_file_path(pb).set_entrypoint_cell(Cell(1, 1, 0)).get_translation()
+    out['b_entry'] = Parser().disable_safety_check().set_excel_file_path(pb).set_entrypoint_cell(Cell(0, 3, 0)).get_translation()
 else:
     Parser().disable_safety_check().set_excel_file_path(pa).get_translation()
     p = Parser().disable_safety_check().set_excel_file_path(pa)
     p.get_translation()
     out['b'] = p.set_excel_file_path(pb).get_translation()
-    out['b_entry'] = Parser().disable_safety_check().set_excel_file_path(pb).set_entrypoint_cell(Cell(1, 1, 0)).get_translation()
+    out['b_entry'] = Parser().disable_safety_check().set_excel_file_path(pb).set_entrypoint_cell(Cell(0, 3, 0)).get_translation()
 import shutil; shutil.rmtree(d, ignore_errors=True)
 print(json.dumps(out))
 '''
